@@ -439,7 +439,8 @@ class FromPandas(PartitionsFiltered, BlockwiseIO):
             data = self.frame._data
             nrows = len(data)
             if nrows == 0:
-                locations = [0] * (npartitions + 1)
+                # with ``chunksize=`` there is no npartitions: one empty partition
+                locations = [0] * ((npartitions or 1) + 1)
                 divisions = (None,) * len(locations)
             elif sort or self.frame._data.index.is_monotonic_increasing:
                 divisions, locations = sorted_division_locations(
